@@ -9,13 +9,13 @@ def execfam_replay(path):
 def run(rep, tier, seed):
     wd = spec_scratch()
     exe = build_harness()
-    rep.rule = ("per delimiter configuration (default; [[ ]] with default comments; [[ ]] with [* *]; <% %> with <# #>; {{ }} with <!-- --> of unequal length): ALL byte "
+    rep.rule = ("per delimiter configuration (default; [[ ]] with default comments; [[ ]] with [* *]; <% %> with <# #>; {{ }} with <!-- --> of unequal length; only the left comment marker configured): ALL byte "
                 "strings of length <=5 (quick) / <=6 (thorough) over the configuration's delimiter bytes plus '-', space, newline, "
                 "'x', and ALL token strings of <=4 / <=5 tokens over {LD, RD, LC, RC, '- ', ' -', whitespace runs, identifiers, text, "
                 "lone delimiter bytes}, the Gen_C10 histories (literal text around failed try bodies and across executions), and token strings behind 5 header shapes of leading import clauses and whitespace; the contract classifies each as rendering a text, a parse error (unclosed comment) or "
                 "unspecified (action body other than one identifier; not emitted); non-trivial: contains an action or comment "
                 "opener; distinct by (configuration, source)")
-    for c in "ABCDE":
+    for c in "ABCDEF":
         for fam in ("Lex", "LexTok", "LexHdr"):
             cfg = "MC_%s_%s_%s.cfg" % (fam, c, tier) if fam != "LexHdr" else "MC_LexHdr_%s.cfg" % c
             vec = os.path.join(wd, "%s_%s.ndjson" % (fam, c))
